@@ -36,6 +36,7 @@ MODULES = {
     'C13': 'harness.c13',
     'C15': 'harness.c15',
     'C16': 'harness.c16',
+    'C18': 'harness.c18',
     'C19': 'harness.c19',
 }
 
